@@ -51,9 +51,12 @@ ASSUMPTIONS = [
     "stripe layout is taken from BANE's own debug log (C07 proves it tiles the rows)",
     "non-finite pixels are modelled as Option.none; float overflow is out of scope",
 ]
-TRUSTED = ["hand model Aegean.Model.C06 (sigmaclip, box, grid, bilinear interpolation, two passes, mask) tied to "
-           "BANE.py by differential correspondence only (no translated leaves: the numpy kernels are outside the "
-           "translator's whitelist)",
+TRUSTED = ["hand model Aegean.Model.C06 (sigmaclip, bilinear interpolation, two passes, mask, stripe ownership) tied to BANE.py by "
+           "differential correspondence; the numpy/scipy kernels are outside the translator's whitelist",
+           "Gen.C06 (box() bounds, data_row_min/max, the arguments of the two grid lists, the slices of the background "
+           "subtraction) regenerated from sigma_filter by py2lean.py + the slicer in translator/targets/C06.py on every run and "
+           "proved equal to the model's expressions (gen_* theorems); box/data_row pieces are also self-validated against "
+           "Python by gen_cases",
            "Aegean.Proofs.C06Pipe.run_eq: the tabulated functions the driver runs equal the plain definitions the "
            "theorems are about"]
 PARTIAL = [
@@ -1058,6 +1061,63 @@ def option_matrix(ctx):
     return jobs, feats
 
 
+# ---------- regenerated arithmetic (Gen.C06) vs the Python it was translated from ----------------------------
+
+def gen_cases(ctx, n):
+    """box(r, c), data_row_min and data_row_max of the tree under test, evaluated by Python on the statements cut out of
+    sigma_filter, against the regenerated Lean definitions (driver op `genbox`).  A difference on a *translated* piece
+    means the translator is wrong (broken check, exit 2); on a piece that fell back to the hand model it is an ordinary
+    correspondence failure."""
+    import ast
+    try:
+        tree = ast.parse(open(os.path.join(common.repo_path(), 'AegeanTools', 'BANE.py')).read())
+        fn = [x for x in ast.walk(tree) if isinstance(x, ast.FunctionDef) and x.name == 'sigma_filter'][0]
+        boxdef = [x for x in fn.body if isinstance(x, ast.FunctionDef) and x.name == 'box'][0]
+        assigns = {}
+        for st in fn.body:
+            if isinstance(st, ast.Assign) and len(st.targets) == 1 and isinstance(st.targets[0], ast.Name) \
+                    and st.targets[0].id in ('data_row_min', 'data_row_max') and st.targets[0].id not in assigns:
+                assigns[st.targets[0].id] = st
+        code_box = compile(ast.fix_missing_locations(ast.Module([boxdef], [])), 'box', 'exec')
+        code_rows = compile(ast.fix_missing_locations(ast.Module([assigns['data_row_min'], assigns['data_row_max']], [])), 'rows', 'exec')
+    except Exception as e:
+        ctx.note(f"gen_cases: box()/data_row_* not found in sigma_filter in the expected shape ({type(e).__name__}); skipped")
+        return
+    rng = ctx.rng
+    args = []
+    for _ in range(n):
+        dn, nc = rng.randint(0, 40), rng.randint(0, 40)
+        bY, bX = rng.randint(0, 30), rng.randint(0, 30)
+        r, c = rng.randint(0, dn + 3), rng.randint(0, nc + 3)
+        nr = rng.randint(0, 60)
+        ymin = rng.randint(0, nr)
+        ymax = rng.randint(ymin, nr)
+        args.append((r, c, bY, bX, dn, nc, ymin, ymax, nr))
+    outs = ctx.driver.batch(["genbox " + " ".join(map(str, a)) for a in args])
+    status = ctx.extra.get('translator', {})
+    for a, o in zip(args, outs):
+        r, c, bY, bX, dn, nc, ymin, ymax, nr = a
+        ns = dict(box_size=(bY, bX), data=np.empty((dn, nc)))
+        exec(code_box, ns)
+        want = [int(v) for v in ns['box'](r, c)]
+        ns2 = dict(box_size=(bY, bX), shape=(nr, nc), ymin=ymin, ymax=ymax)
+        exec(code_rows, ns2)
+        want += [int(ns2['data_row_min']), int(ns2['data_row_max'])]
+        got = [int(t) for t in o.split()]
+        ctx.count('gen-arith-case')
+        ctx.case(dict(op='genbox', args=list(a)), nontrivial_key=('genbox',) + a if (r > bY // 2 or c > bX // 2) else None,
+                 sample_every=500)
+        if got != want:
+            names = ['boxRMin', 'boxRMax', 'boxCMin', 'boxCMax', 'dataRowMin', 'dataRowMax']
+            bad = [nm for nm, g, w in zip(names, got, want) if g != w]
+            if all(status.get(nm, 'translated') == 'translated' for nm in bad):
+                raise common.LeanError(f"translator self-validation: Gen.C06 {bad} = {got} but the Python source gives {want} for "
+                                       f"(r, c, bY, bX, dn, nc, ymin, ymax, nr) = {a}")
+            ctx.fail('corr', dict(op='genbox', args=list(a)),
+                     f"hand fallback of {bad} gives {got}, the source's box()/data_row_* give {want}", dict(what='box-arithmetic'))
+            return
+
+
 # ---------- histories: one long-lived process, one file name rewritten between calls --------------------------
 
 def history_steps(ctx):
@@ -1227,6 +1287,7 @@ def run(ctx):
     for api, steps in history_steps(ctx):
         run_history(ctx, api, steps)
     clip_cases(ctx, 150 if ctx.quick else 1500)
+    gen_cases(ctx, 300 if ctx.quick else 3000)
     n = 70 if ctx.quick else 600
     done = 0
     while done < n:
@@ -1257,6 +1318,9 @@ def search(ctx):
 def replay(ctx, rec):
     common.use_repo()
     c = rec['case']
+    if c.get('op') == 'genbox':
+        gen_cases(ctx, 50)
+        return
     if c.get('op') == 'history':
         steps = []
         for sc in c['steps']:
